@@ -119,6 +119,19 @@ CHECKS = {
             'unconstrained answer must be exactly the latest version; GetSupportedLanguages must equal the stored languages.',
             'Single provider with context states enabled in GetMdState (library default); handle strings are schema-valid.',
             'DESIGN.md section 2 C20'),
+    'C06': ('hypothesis generated provider MDIB programs x delivery schedules (drop / duplicate / reorder / late replay / '
+            'reload) x in-flight commits around the GetMdib answer x SequenceId / InstanceId change, on a fault-injecting '
+            'in-process loop-back transport, with monotonicity, no-change, membership and mirror oracles',
+            'The notifications of a generated provider history are withheld by the transport and delivered to the real '
+            'consumer according to the generated schedule. After every delivery: MdibVersion and every StateVersion are '
+            'non-decreasing, a stale / duplicated / foreign-id report leaves the canonical consumer MDIB unchanged, every '
+            'lookup index equals a scan, and every state the consumer holds equals a version the provider published for '
+            'that handle. After every reload (and after the initial load with 0-3 commits before / after the provider '
+            'computes the GetMdib answer) the consumer must be a canonical mirror; after an id change nothing may be '
+            'applied until reload_all, and fresh reports after the reload must keep the mirror.',
+            'Notifications are handled synchronously in the delivering thread; a provider restart is modelled by changing '
+            'sequence_id / instance_id of the provider MDIB.',
+            'DESIGN.md section 2 C06'),
     'C10': ('hypothesis generated histories of set_location and SetContextState invocations executed end to end '
             '(consumer client, loop-back transport, SetService, SCO worker loop run inline, tutorial context provider) '
             'with an invariant oracle over the provider table and the context reports',
